@@ -415,7 +415,7 @@ MUTANTS = [
     {'id': 'rle_decode_bounded_search', 'file': 'bsp.py', 'find': "            zero_ind = data.index(0x00, pos)\n        except ValueError:\n            # No more zeros.\n            result += view[pos:]", 'replace': "            zero_ind = data.index(0x00, pos, start + ret_bytes)\n        except ValueError:\n            # No more zeros.\n            result += view[pos:]", 'expect': 'C11.L7'},
     {'id': 'prop_fades_swapped', 'file': 'bsp.py', 'find': "                prop.min_fade,\n                prop.max_fade,\n", 'replace': "                prop.max_fade,\n                prop.min_fade,\n", 'expect': 'C11.L3'},
     {'id': 'plane_normal_yx', 'file': 'bsp.py', 'find': "                plane.normal.x, plane.normal.y, plane.normal.z,\n                plane.dist,", 'replace': "                plane.normal.y, plane.normal.x, plane.normal.z,\n                plane.dist,", 'expect': 'C11.L3'},
-    {'id': 'node_area_from_plane', 'file': 'bsp.py', 'find': "                node.area_ind,", 'replace': "                node.plane.type.value,", 'expect': 'C11.L3'},
+    {'id': 'node_area_from_plane', 'file': 'bsp.py', 'find': "len(node.faces), node.area_ind,", 'replace': "len(node.faces), node.plane.type.value,", 'expect': 'C11.L3'},
     {'id': 'lightmap_flags_primary_only', 'file': 'bsp.py', 'find': "                    '<IHH',\n                    prop.flags.value,\n", 'replace': "                    '<IHH',\n                    prop.flags.value_prim,\n", 'expect': 'C11.L10'},
     {'id': 'secondary_flags_shift', 'file': 'bsp.py', 'find': "                flags |= struct_read('<I', static_lump)[0] << 8", 'replace': "                flags |= struct_read('<I', static_lump)[0] << 16", 'expect': 'C11.L10'},
     {'id': 'value_sec_shift_changed', 'file': 'bsp.py', 'find': "        return self.value >> 8", 'replace': "        return self.value >> 16", 'expect': 'C11.L10'},
